@@ -236,6 +236,7 @@ class Server:
           which becomes available once another thread gathers the result from (another end of) the pipeline.
         """
         self._pipeline_notfull = threading.Condition()
+        self._stopping = False
         _enter_server(self)
         return self
 
@@ -247,6 +248,12 @@ class Server:
           in the servlet will eventually see the sentinel and exit.
         - Wait for the servlet and all helper threads to exit.
         """
+        with self._pipeline_notfull:
+            # From now on no request is admitted; see `_enqueue`. (A caller still waiting for room
+            # would otherwise get in while things shut down: never served, and its entry
+            # in the ledger would survive into the next session of this object.)
+            self._stopping = True
+            self._pipeline_notfull.notify_all()
         if self._onboard_thread is not None:
             # Move the inputs that are still in the buffer (e.g. of abandoned
             # requests) into the pipeline while the workers are still reading it;
@@ -334,7 +341,11 @@ class Server:
                     # timed out; pass it on, or another waiter could miss the free slot.
                     self._pipeline_notfull.notify()
                     raise ServerBacklogFull(len(pipeline), perf_counter() - t0)
+                if self._stopping:
+                    break
 
+            if self._stopping:
+                raise RuntimeError('the server is shutting down or has been shut down')
             pipeline[uid] = fut
             self._input_buffer.put((uid, x))
             # Record the request before handing it to the workers: the gather
@@ -530,10 +541,15 @@ class AsyncServer:
     async def __aenter__(self):
         self._pipeline_notfull = asyncio.Condition()
         self._pipeline_notfull_notifications = {}
+        self._stopping = False
         _enter_server(self, (asyncio.get_running_loop(),))
         return self
 
     async def __aexit__(self, *args):
+        async with self._pipeline_notfull:
+            # See `Server.__exit__`.
+            self._stopping = True
+            self._pipeline_notfull.notify_all()
         if self._onboard_thread is not None:
             # See `Server.__exit__`.
             self._input_buffer.put(None)
@@ -605,6 +621,11 @@ class AsyncServer:
                     # Likewise if the caller's task is cancelled while it waits.
                     self._pipeline_notfull.notify()
                     raise
+                if self._stopping:
+                    break
+
+            if self._stopping:
+                raise RuntimeError('the server is shutting down or has been shut down')
 
             # We can't accept situation that an entry is placed in `pipeline`
             # but not in `_input_buffer`, for that entry would be stuck in `pipeline`
